@@ -346,26 +346,254 @@ Lemma first_existing_find ex l :
 Proof. induction l as [|x l IH]; cbn; [reflexivity|]. destruct (ex (print_query x)); auto. Qed.
 
 (* ---------- templating ---------- *)
-Lemma render_app vars t1 t2 : render vars (t1 ++ t2) = render vars t1 ++ render vars t2.
-Proof. unfold render. apply flat_map_app. Qed.
+Definition opt_app (x y : option str) : option str :=
+  match x, y with Some a, Some b => Some (a ++ b) | _, _ => None end.
 
-Lemma render_only_supplied vars vars' t :
-  (forall n, In (TVar n) t -> assoc n (bindings vars) = assoc n (bindings vars')) ->
-  render vars t = render vars' t.
+Lemma render_pieces_app raw b t1 t2 :
+  render_pieces raw b (t1 ++ t2) = opt_app (render_pieces raw b t1) (render_pieces raw b t2).
 Proof.
-  unfold render. induction t as [|p t IH]; cbn; intro H; [reflexivity|].
-  f_equal.
-  - destruct p as [s|n]; cbn; [reflexivity|]. rewrite (H n (or_introl eq_refl)). reflexivity.
-  - apply IH. intros n Hn. apply H. right. exact Hn.
+  induction t1 as [|p t1 IH]; cbn [app render_pieces].
+  - unfold opt_app. destruct (render_pieces raw b t2); reflexivity.
+  - rewrite IH. unfold opt_app.
+    destruct (render_piece raw b p) as [x|]; [|reflexivity].
+    destruct (render_pieces raw b t1) as [y|]; [|reflexivity].
+    destruct (render_pieces raw b t2) as [z|]; [|reflexivity].
+    rewrite app_assoc. reflexivity.
 Qed.
 
-Lemma render_lit vars s : render vars [TLit s] = s.
-Proof. unfold render. cbn. apply app_nil_r. Qed.
+Lemma render_app vars t1 t2 :
+  render vars (t1 ++ t2) =
+  match render vars t1, render vars t2 with Some a, Some b => Some (a ++ b) | _, _ => None end.
+Proof.
+  unfold render, render_g. destruct (keys_ok (bindings vars)); [|reflexivity].
+  apply render_pieces_app.
+Qed.
+
+Lemma prefixed_override_ext raw raw' x y :
+  (forall k, assoc k raw = assoc k raw') -> prefixed_override raw x y = prefixed_override raw' x y.
+Proof. intro H. unfold prefixed_override. rewrite !H. reflexivity. Qed.
+
+Lemma eval_ext raw raw' b b' e :
+  (forall n, In n (expr_names e) -> assoc n b = assoc n b') ->
+  (expr_overrides e = true -> forall k, assoc k raw = assoc k raw') ->
+  eval raw b e = eval raw' b' e.
+Proof.
+  induction e as [s|n|l a IHa p IHp|l f a IHa]; cbn [eval expr_names expr_overrides]; intros Hn Ho.
+  - reflexivity.
+  - rewrite (Hn n (or_introl eq_refl)). reflexivity.
+  - specialize (Ho eq_refl).
+    rewrite IHa, IHp.
+    + destruct (eval raw' b' a) as [| |x]; try reflexivity.
+      destruct (eval raw' b' p) as [| |y]; try reflexivity.
+      rewrite (prefixed_override_ext raw raw' x y Ho). reflexivity.
+    + intros n Hin. apply Hn. apply in_or_app. right. exact Hin.
+    + intros _. exact Ho.
+    + intros n Hin. apply Hn. apply in_or_app. left. exact Hin.
+    + intros _. exact Ho.
+  - rewrite IHa; [reflexivity| exact Hn | exact Ho].
+Qed.
+
+Lemma render_pieces_ext raw raw' b b' t :
+  (forall n, In n (tpl_names t) -> assoc n b = assoc n b') ->
+  (tpl_overrides t = true -> forall k, assoc k raw = assoc k raw') ->
+  render_pieces raw b t = render_pieces raw' b' t.
+Proof.
+  induction t as [|p t IH]; cbn [render_pieces]; intros Hn Ho; [reflexivity|].
+  assert (Hp : render_piece raw b p = render_piece raw' b' p).
+  { destruct p as [s|n|e]; cbn [render_piece].
+    - reflexivity.
+    - rewrite (Hn n). reflexivity. cbn. left. reflexivity.
+    - rewrite (eval_ext raw raw' b b' e); [reflexivity| |].
+      + intros n Hin. apply Hn. unfold tpl_names. cbn [flat_map piece_names]. apply in_or_app. left. exact Hin.
+      + intro He. apply Ho. cbn [tpl_overrides existsb]. rewrite He. reflexivity. }
+  rewrite Hp, IH; [reflexivity| |].
+  - intros n Hin. apply Hn. unfold tpl_names. cbn [flat_map]. apply in_or_app. right. exact Hin.
+  - intro Ht. apply Ho. unfold tpl_overrides in *. cbn [existsb]. rewrite Ht. apply orb_true_r.
+Qed.
+
+(* the payload depends on the supplied variables only through: whether all (trimmed) keys are
+   identifiers, the values of the names the entry mentions, and - if the entry calls
+   PrefixedOverride - the values found under the keys as supplied *)
+Lemma render_only_supplied vars vars' t :
+  keys_ok (bindings vars) = keys_ok (bindings vars') ->
+  (forall n, In n (tpl_names t) -> assoc n (bindings vars) = assoc n (bindings vars')) ->
+  (tpl_overrides t = true -> forall k, assoc k vars = assoc k vars') ->
+  render vars t = render vars' t.
+Proof.
+  intros Hk Hn Ho. unfold render, render_g. rewrite Hk.
+  destruct (keys_ok (bindings vars')); [|reflexivity].
+  apply render_pieces_ext; assumption.
+Qed.
+
+Lemma render_lit vars s : keys_ok (bindings vars) = true -> render vars [TLit s] = Some s.
+Proof. intro H. unfold render, render_g. rewrite H. cbn. rewrite app_nil_r. reflexivity. Qed.
 
 Lemma render_var vars n :
+  keys_ok (bindings vars) = true ->
   render vars [TVar n] =
-  match assoc n (bindings vars) with Some v => escape_html v | None => [] end.
-Proof. unfold render. cbn. apply app_nil_r. Qed.
+  Some (match assoc n (bindings vars) with Some v => escape_html v | None => [] end).
+Proof. intro H. unfold render, render_g. rewrite H. cbn. rewrite app_nil_r. reflexivity. Qed.
+
+Lemma render_bad_key vars t : keys_ok (bindings vars) = false -> render vars t = None.
+Proof. intro H. unfold render, render_g. rewrite H. reflexivity. Qed.
+
+Lemma render_override vars l n p :
+  keys_ok (bindings vars) = true ->
+  render vars [TExp (EPO l (ELit n) (ELit p))] = Some (escape_html (prefixed_override vars n p)).
+Proof. intro H. unfold render, render_g. rewrite H. cbn. rewrite app_nil_r. reflexivity. Qed.
+
+(* what PrefixedOverride returns, spelled out *)
+Definition usable (raw : list (str * str)) (k v : str) : Prop := assoc k raw = Some v /\ nullish v = false.
+Definition unusable (raw : list (str * str)) (k : str) : Prop :=
+  assoc k raw = None \/ exists v, assoc k raw = Some v /\ nullish v = true.
+
+Lemma live_cases raw k :
+  (exists v, live (assoc k raw) = Some v /\ usable raw k v) \/ (live (assoc k raw) = None /\ unusable raw k).
+Proof.
+  unfold live, usable, unusable. destruct (assoc k raw) as [v|].
+  - destruct (nullish v) eqn:E.
+    + right. split; [reflexivity|]. right. exists v. auto.
+    + left. exists v. auto.
+  - right. auto.
+Qed.
+
+Lemma prefixed_override_spec raw n p :
+  let r := prefixed_override raw n p in
+  usable raw (p ++ 95 :: n) r \/
+  (unusable raw (p ++ 95 :: n) /\ (usable raw n r \/ (unusable raw n /\ r = []))).
+Proof.
+  cbv zeta. unfold prefixed_override.
+  destruct (live_cases raw (p ++ 95 :: n)) as [(v & -> & Hv)|(-> & Hu)].
+  - left. exact Hv.
+  - right. split; [exact Hu|].
+    destruct (live_cases raw n) as [(v & -> & Hv)|(-> & Hu2)].
+    + left. exact Hv.
+    + right. split; [exact Hu2|reflexivity].
+Qed.
+
+Lemma legacy_alias raw b l l' a p f x :
+  eval raw b (EPO l a p) = eval raw b (EPO l' a p) /\ eval raw b (EFun l f x) = eval raw b (EFun l' f x).
+Proof. split; reflexivity. Qed.
+
+(* ---------- the service across requests (function map built per request) ---------- *)
+Lemma step_state_shape st a b :
+  op_shape a b -> fst (step_g false st a) = fst (step_g false st b).
+Proof.
+  destruct a as [p v| |p c], b as [p' v'| |p' c']; cbn [op_shape]; try contradiction; intro H.
+  - subst p'. cbn [step_g].
+    destruct (assoc p (s_cache st)); [reflexivity|].
+    destruct (assoc p (s_backend st)); reflexivity.
+  - reflexivity.
+  - destruct H as [-> ->]. reflexivity.
+Qed.
+
+Lemma run_g_cons sh st op r :
+  run_g sh st (op :: r) =
+  (fst (run_g sh (fst (step_g sh st op)) r), snd (step_g sh st op) :: snd (run_g sh (fst (step_g sh st op)) r)).
+Proof.
+  cbn [run_g]. destruct (step_g sh st op) as [st1 o]. cbn [fst snd].
+  destruct (run_g sh st1 r) as [st2 os]. reflexivity.
+Qed.
+
+Lemma run_state_shape st h h' :
+  Forall2 op_shape h h' -> fst (run_g false st h) = fst (run_g false st h').
+Proof.
+  intro H. revert st. induction H as [|a b h h' Hab _ IH]; intro st; [reflexivity|].
+  rewrite !run_g_cons. cbn [fst]. rewrite (step_state_shape st a b Hab). apply IH.
+Qed.
+
+(* the payload of a request does not depend on the variables of any earlier request *)
+Lemma noninterference st h h' p vars :
+  Forall2 op_shape h h' ->
+  snd (step_g false (fst (run_g false st h)) (OReq p vars)) =
+  snd (step_g false (fst (run_g false st h')) (OReq p vars)).
+Proof. intro H. rewrite (run_state_shape st h h' H). reflexivity. Qed.
+
+(* it is the template in effect rendered with the variables of this request *)
+Lemma step_payload st p vars :
+  snd (step_g false st (OReq p vars)) =
+  match in_effect st p with Some t => render vars t | None => None end.
+Proof.
+  unfold in_effect. cbn [step_g].
+  destruct (assoc p (s_cache st)); [reflexivity|].
+  destruct (assoc p (s_backend st)); reflexivity.
+Qed.
+
+Definition coherent (st : svc) : Prop :=
+  forall p t, assoc p (s_cache st) = Some t -> assoc p (s_backend st) = Some t.
+
+Lemma coherent_step st op :
+  coherent st -> (match op with OPut _ _ => False | _ => True end) ->
+  coherent (fst (step_g false st op)) /\ s_backend (fst (step_g false st op)) = s_backend st.
+Proof.
+  intros Hc Hop. destruct op as [p vars| |p c]; [| |contradiction].
+  - cbn [step_g]. destruct (assoc p (s_cache st)) as [t|] eqn:Ec.
+    + cbn [fst s_backend]. split; [|reflexivity]. exact Hc.
+    + destruct (assoc p (s_backend st)) as [t|] eqn:Eb; cbn [fst s_backend]; (split; [|reflexivity]).
+      * intros q u. cbn [s_cache s_backend assoc].
+        destruct (str_eqb q p) eqn:E.
+        -- apply str_eqb_spec in E. subst q. intro H. inversion H; subst. exact Eb.
+        -- apply Hc.
+      * exact Hc.
+  - cbn [step_g fst s_backend]. split; [|reflexivity]. intros q u H. discriminate.
+Qed.
+
+Lemma pure_run st h :
+  coherent st -> no_put h = true -> snd (run_g false st h) = pure_outs (s_backend st) h.
+Proof.
+  revert st. induction h as [|op h IH]; intros st Hc Hn; [reflexivity|].
+  cbn [no_put forallb] in Hn. apply andb_true_iff in Hn. destruct Hn as [Hop Hn].
+  rewrite run_g_cons. cbn [snd].
+  assert (Hop' : match op with OPut _ _ => False | _ => True end) by (destruct op; [exact I|exact I|discriminate]).
+  destruct (coherent_step st op Hc Hop') as [Hc1 Hb1].
+  rewrite (IH _ Hc1 Hn), Hb1.
+  destruct op as [p vars| |p c]; [| |discriminate].
+  - cbn [pure_outs]. f_equal. rewrite step_payload. unfold in_effect.
+    destruct (assoc p (s_cache st)) as [t|] eqn:Ec; [|reflexivity].
+    rewrite (Hc p t Ec). reflexivity.
+  - reflexivity.
+Qed.
+
+Lemma pure_run_fresh be h : no_put h = true -> snd (run_g false (fresh be) h) = pure_outs be h.
+Proof. intro H. apply (pure_run (fresh be) h); [|exact H]. intros p t E. discriminate. Qed.
+
+Lemma run_g_app sh st h1 h2 :
+  fst (run_g sh st (h1 ++ h2)) = fst (run_g sh (fst (run_g sh st h1)) h2).
+Proof.
+  revert st. induction h1 as [|op h1 IH]; intro st; [reflexivity|].
+  cbn [app]. rewrite !run_g_cons. cbn [fst]. apply IH.
+Qed.
+
+(* whatever happened before (entries rewritten, anything cached): after an invalidation every
+   request gets the pure per-request result over the backend as it is *)
+Lemma pure_after_invalidation st h1 h2 :
+  no_put h2 = true ->
+  snd (run_g false (fst (run_g false st (h1 ++ [OInv]))) h2) =
+  pure_outs (s_backend (fst (run_g false st h1))) h2.
+Proof.
+  intro H. rewrite run_g_app.
+  set (s1 := fst (run_g false st h1)).
+  cbn [run_g step_g fst].
+  apply (pure_run (mkSvc (s_backend s1) [] []) h2); [|exact H].
+  intros p t E. discriminate.
+Qed.
+
+(* the source sets the switch to "per request" *)
+Lemma request_data_not_cached_in_source :
+  tplcache_request_data_cached = false /\ tplcache_funcmap_from_request = true /\ fm_shared = false.
+Proof. repeat split; reflexivity. Qed.
+
+(* with the switch on (function map registered with the cached template set) the payload of a
+   request does depend on the variables of an earlier one *)
+Lemma shared_function_map_leaks :
+  exists be p v1 v2 v,
+    snd (step_g true (fst (run_g true (fresh be) [OReq p v1])) (OReq p v)) <>
+    snd (step_g true (fst (run_g true (fresh be) [OReq p v2])) (OReq p v)).
+Proof.
+  exists [([101], [TExp (EPO false (ELit [97]) (ELit [120]))])], [101],
+         [([120;95;97], [49])], [([120;95;97], [50])], [([120;95;97], [51])].
+  vm_compute. discriminate.
+Qed.
 
 (* ---------- query parameters ---------- *)
 Lemma split_at_none sep l a :
